@@ -19,15 +19,15 @@ type simGen struct {
 }
 
 type simOut struct {
-	results   map[string]bool     // acceptable classifications of Execute's result
-	calls     []string            // the complete call log of a successful run
-	processed []int               // packages that go through pkgExecute, in order
-	skipped   []int               // packages skipped as cached
-	bodies    map[string]string   // pkgpath/gen → rendered text (successful run)
-	failPkg   int                 // index of the failing package, -1 if none
+	results   map[string]bool   // acceptable classifications of Execute's result
+	calls     []string          // the complete call log of a successful run
+	processed []int             // packages that go through pkgExecute, in order
+	skipped   []int             // packages skipped as cached
+	bodies    map[string]string // pkgpath/gen → rendered text (successful run)
+	failPkg   int               // index of the failing package, -1 if none
 	failGen   string
-	files     map[string]string   // expectation per rel path of every <base>.* candidate: "exists" | "absent" | "any"
-	sumWant   string              // expected text of gengo.sum after the run; "\x00keep" = unchanged
+	files     map[string]string // expectation per rel path of every <base>.* candidate: "exists" | "absent" | "any"
+	sumWant   string            // expected text of gengo.sum after the run; "\x00keep" = unchanged
 }
 
 func relFile(p PPkg, g string) string { return p.Dir + "/" + pipeBase + "." + g + ".go" }
